@@ -113,7 +113,7 @@ def Step.readCells : Step → List Nat
   | .store n _ _ => n.cells
   | .load n => n.cells
   | .move a b => a.cells ++ b.cells
-  | .check n _ => n.cells
+  | .check n ok => if ok then [] else n.cells   -- an accepted scratch validation leaves no trace of the name it ran under
   | _ => []
 
 def writeCells (p : List Step) : List Nat := p.flatMap Step.writeCells
@@ -363,6 +363,10 @@ def cellMap (priv : Nat → Bool) (N i c : Nat) : Nat := if priv c then privCell
 def instFrom (priv : Nat → Bool) (N : Nat) : Nat → List (List Step) → List (List Step)
   | _, [] => []
   | i, p :: rest => renameProg (cellMap priv N i) p :: instFrom priv N (i + 1) rest
+
+/-- the initial store of instantiated programs: the shared cell and every private copy of `c` start with what the
+    Field object `c` holds (a copy is made from the object of the class definition) -/
+def instStore (N : Nat) (sh : Shared) : Shared := fun x => if x % 2 = 0 then sh (x / 2) else sh ((x / 2) / N)
 
 /-- the table has a row for site `key` whose written value differs between threads and is read back -/
 def siteRacy (tbl : List SharedWrite) (key : String) : Bool :=
